@@ -59,11 +59,18 @@ def showObj (d : ResDoc) : String :=
     (match d.obj.rc with | none => "!" | some n => toString n), showOpt d.obj.cmd, showArgs d.obj.args,
     showOpt d.obj.image, showOpt d.obj.engine, showOpt d.obj.containerId]
 
-def showLoaded (fs : FS) (l : Loaded) : String :=
+def decPats (f : String) : Option (List Str) :=
+  if f = "-" then some []
+  else (f.splitOn ";").foldr (fun p acc => match acc, decStr p with
+    | some xs, some x => some (x :: xs) | _, _ => none) (some [])
+
+def showLoaded (fs : FS) (l : Loaded) (pats : List Str := []) : String :=
   "|".intercalate [(if l.raw then "raw" else "text"), encStr l.relativePath,
     (match l.rc with | none => "!" | some n => toString n), showOpt l.cmd, showArgs l.args,
     showOpt l.image, showOpt l.engine, showOpt l.containerId,
-    (match loadedContent fs l with | none => "nocontent" | some ls => showLines ls)]
+    (match loadedContent fs l with
+     | none => "nocontent"
+     | some ls => showLines (if l.raw then ls else postFilter pats ls))]
 
 def docResults : Option Results → List ResDoc
   | none => [] | some (.one d) => [d] | some (.many ds) => ds
@@ -161,20 +168,20 @@ def handle (st : St) (fs : List String) : St × String :=
     let names := b.filterMap (fun kv => st.known[kv.1]?)
     let sorted := (names.map encStr).toArray.qsort (· < ·) |>.toList
     ({ st with broker := b }, s!"{sorted.length}:" ++ ";".intercalate sorted)
-  | ["get", name, idx] =>
-    match decStr name, decNat idx with
-    | some name, some i =>
+  | ["get", name, idx, pats] =>
+    match decStr name, decNat idx, decPats pats with
+    | some name, some i, some pats =>
       match knownFn st.known name with
       | some k =>
         match st.broker.get k with
-        | some (.single l) => if i = 0 then (st, "s|" ++ showLoaded st.store.fs l) else (st, "noelem")
+        | some (.single l) => if i = 0 then (st, "s|" ++ showLoaded st.store.fs l pats) else (st, "noelem")
         | some (.multi ls) =>
           match ls[i]? with
-          | some l => (st, s!"m{ls.length}|" ++ showLoaded st.store.fs l)
+          | some l => (st, s!"m{ls.length}|" ++ showLoaded st.store.fs l pats)
           | none => (st, "noelem")
         | none => (st, "absent")
       | none => (st, "absent")
-    | _, _ => (st, "bad-op")
+    | _, _, _ => (st, "bad-op")
   | ["prune", keys, graph, loaded] =>
     -- keys: "1,2"; graph: "1>2.3,2>" ; loaded: "1,2"
     let ks := (decList keys).filterMap String.toNat?
